@@ -59,6 +59,7 @@ func main() {
 			"reports in this check stay inside the capacity domain of C02 (capacity < 2^64/135 for reporting devices)",
 			"fault model for the persist step: ENOENT on opening equipment-authorizations.dat (renamed away; no O_CREATE in the server) and ENOSPC on the write (the name is a symlink to /dev/full for the one request); a write that fails with EPERM while open and ftruncate succeed (sealed memfd behind a symlink, content copied back afterwards); EIO, short writes and close errors are not injected",
 			"torn scenarios: RLIMIT_FSIZE (process wide, soft limit, for one request) cuts an authorization append short; a server that then refuses to start is counted (torn.refused_to_start), only a server that comes up is judged (bans established before the restart must hold)",
+			"scale batch: bulk operations (hundreds of authorizations, thousands of injected reports) are checked by status only; the full model comparison runs at check points before and after the restarts",
 			"records whose GCA signature ends in one (thorough: sometimes two) zero byte(s) are produced by varying ProtocolFee and are the last record of the file at a restart",
 			"HTTP status classes asserted: 200 for a valid new authorization and for an exact duplicate; non-200 for bad signatures, conflicts and banned ids",
 		},
@@ -102,11 +103,17 @@ func plan(tier string, seed int64) []run.Batch {
 		add("keyreuse", 12, 4)
 		add("conc", 10, 8)
 		add("torn", 8, 6)
+		add("scale", 1, 4)
+		for i := 0; i < 3; i++ {
+			bs = append(bs, run.Batch{Kind: "scale", Seed: seed*100019 + int64(len(bs)), N: 1, TimeoutS: 300, Params: map[string]string{"slice": fmt.Sprint(i), "of": "3", "what": "auths"}})
+		}
 	} else {
 		add("seq", 4, 16) // 64 sequences
 		add("keyreuse", 4, 2)
 		add("conc", 3, 3)
 		add("torn", 4, 2)
+		add("scale", 1, 1)
+		bs = append(bs, run.Batch{Kind: "scale", Seed: seed*100019 + int64(len(bs)), N: 1, TimeoutS: 300, Params: map[string]string{"slice": "0", "of": "1", "what": "auths"}})
 	}
 	return bs
 }
@@ -130,6 +137,11 @@ func post(c *ev.Check, outs []*run.Outcome) {
 	for _, f := range fieldNames {
 		c.Require("conflict."+f, 1)
 	}
+	// scale floors: more authorization records than fit a 64 KiB buffer (442), more report records than two per
+	// live slot of the one surviving device (8064)
+	c.Require("max.auth_records", 443)
+	c.Require("max.report_records_one_survivor", 9000)
+	c.SetExtra("scale", map[string]int64{"max_auth_records": c.Counter("max.auth_records"), "max_report_records": c.Counter("max.report_records")})
 	for _, s := range badSigners {
 		c.Require("badsig."+s, 1)
 	}
@@ -2446,6 +2458,208 @@ func (w *world) pickOther(d *dev) *dev {
 	return c[w.rng.Intn(len(c))]
 }
 
+// ---------------------------------------------------------------- scale: long files before a restart
+
+// fullCheck judges the whole state and every surface against the model (no per-operation differ: the bulk
+// operations before it were only checked by their HTTP status).
+func (w *world) fullCheck(what string) {
+	if w.stop || w.S == nil {
+		return
+	}
+	w.op("full comparison: %s", what)
+	w.before = w.S.VerifSnapshot(true)
+	w.observe(expect{kind: "none", what: what, class: "scale", last: true})
+}
+
+// bulkReport injects one acceptable report and updates the slot model.
+func (w *world) bulkReport(d *dev, slot uint32, power uint64) {
+	rep := d.auth2report(slot, power)
+	run.Op("bulk report id=%d slot=%d power=%d", d.id, slot, power)
+	w.Inject(rep.Bytes())
+	m := d.slots[slot]
+	if m == nil {
+		m = &slotM{reps: map[refenc.Report]struct{}{}, first: rep}
+		d.slots[slot] = m
+	}
+	m.reps[rep] = struct{}{}
+	if overCapacity(rep.Power, d.auth.Capacity) {
+		m.over = true
+	}
+	d.onDisk = true
+}
+
+// fastAuthorize submits an authorization and checks only the status class.
+func (w *world) fastAuthorize(a refenc.Auth, want200 bool, what string) bool {
+	run.Op("bulk authorize %s id=%d", what, a.ID)
+	st, ok := w.authorize(a)
+	if !ok {
+		return false
+	}
+	if (st == 200) != want200 {
+		w.r.Violationf("scale:unexpected-status:"+what, w.replay(), "%s for id %d was answered %d", what, a.ID, st)
+	}
+	return true
+}
+
+// runScaleAuths: 450-600 authorization records (new devices, conflicts, duplicates; few devices authorized at any
+// time) before two restarts: devices authorized late and bans whose evidence lies late in the file must survive.
+func runScaleAuths(b run.Batch, r *ev.Result, rng *rand.Rand, n int) bool {
+	w := newWorld(b, r, rng, 4000+n)
+	if w == nil {
+		return false
+	}
+	defer w.finish()
+	target := 450 + rng.Intn(151)
+	w.op("scale: building %d authorization records", target)
+	for len(w.file)/148 < target && !w.stop {
+		auth := w.sorted(stAuthorized)
+		switch x := rng.Intn(10); {
+		case len(auth) < 4 || (x < 5 && len(auth) < 9):
+			k := refenc.GenKey(rng)
+			a := w.mkAuth(w.freshID(), k.Pub, true)
+			if !w.fastAuthorize(a, true, "new") {
+				return true
+			}
+			w.addDev(&dev{id: a.ID, key: k, auth: a, state: stAuthorized, slots: map[uint32]*slotM{}, reporting: true})
+			w.file = append(w.file, a.Bytes()...)
+		case x < 7:
+			if !w.fastAuthorize(auth[rng.Intn(len(auth))].auth, true, "duplicate") {
+				return true
+			}
+		default:
+			d := auth[rng.Intn(len(auth))]
+			a := d.auth
+			a.Debt ^= 1 << uint(rng.Intn(64))
+			if rng.Intn(3) == 0 {
+				a.Pub = refenc.GenKey(rng).Pub
+			}
+			a = a.Signed(w.GCA.Priv)
+			if !w.fastAuthorize(a, false, "conflict") {
+				return true
+			}
+			w.ban(d, a)
+		}
+		if len(w.ids)%25 == 0 && rng.Intn(3) == 0 { // a few reports along the way
+			w.opReportQuiet()
+		}
+	}
+	r.Max("max.auth_records", int64(len(w.file)/148))
+	r.Count("scale.auth_scenarios", 1)
+	r.Nontrivial(fmt.Sprintf("scale/auths/%d", target))
+	w.fullCheck("after the bulk authorizations")
+	for i := 0; i < 2 && !w.stop; i++ {
+		w.opRestart()
+	}
+	w.fullCheck("after two restarts on the long authorization file")
+	// ordinary life goes on
+	if !w.stop {
+		w.opBannedSubmit()
+	}
+	if !w.stop {
+		w.opNew(true)
+	}
+	if !w.stop {
+		w.opReport(stAuthorized)
+	}
+	return !w.poisoned
+}
+
+// opReportQuiet: one report of a random authorized device, model updated, no observation.
+func (w *world) opReportQuiet() {
+	if d := w.pick(stAuthorized); d != nil {
+		w.bulkReport(d, w.usableSlot(), uint64(2+w.rng.Intn(900)))
+	}
+}
+
+// runScaleReports: a report log of >= 9000 records dominated by devices that are then banned, behind the early
+// reports of `survivors` untouched devices; then two restarts. The untouched devices keep every report.
+func runScaleReports(b run.Batch, r *ev.Result, rng *rand.Rand, n int, survivors int) bool {
+	w := newWorld(b, r, rng, 5000+n)
+	if w == nil {
+		return false
+	}
+	defer w.finish()
+	var surv, bulk []*dev
+	for i := 0; i < survivors && !w.stop; i++ {
+		surv = append(surv, w.opNew(true))
+	}
+	nBulk := 3
+	need := 9000
+	if survivors > 1 {
+		nBulk, need = 4, 8065*survivors+200
+	}
+	for i := 0; i < nBulk && !w.stop; i++ {
+		bulk = append(bulk, w.opNew(true))
+	}
+	if w.stop {
+		return true
+	}
+	for _, d := range append(append([]*dev(nil), surv...), bulk...) {
+		if d == nil {
+			return true
+		}
+	}
+	setNow := func(now uint32) {
+		w.now = now
+		drv.SetClock(now)
+	}
+	// the survivors report FIRST
+	setNow(432)
+	for _, d := range surv {
+		for _, s := range rng.Perm(865)[:250+rng.Intn(150)] {
+			w.bulkReport(d, uint32(s), uint64(2+rng.Intn(900)))
+		}
+	}
+	w.fullCheck("after the early reports of the untouched devices")
+	// then the bulk: every reachable slot of the other devices, a share of them equivocated (two records per slot)
+	records := func() int { return len(w.ReadFile("equipment-reports.dat")) / 80 }
+	for _, now := range []uint32{432, 1296, 2160, 3024} {
+		setNow(now)
+		for _, d := range bulk {
+			for s := int64(now) - 432; s <= int64(now)+432 && !w.stop; s++ {
+				if _, used := d.slots[uint32(s)]; used {
+					continue
+				}
+				p := uint64(2 + rng.Intn(900))
+				w.bulkReport(d, uint32(s), p)
+				if rng.Intn(100) < 45 || survivors > 1 {
+					w.bulkReport(d, uint32(s), p+1)
+				}
+			}
+		}
+		if records() >= need+300 {
+			break
+		}
+	}
+	nrec := records()
+	r.Max("max.report_records", int64(nrec))
+	if survivors == 1 {
+		r.Max("max.report_records_one_survivor", int64(nrec))
+	}
+	r.Count("scale.report_scenarios", 1)
+	r.Nontrivial(fmt.Sprintf("scale/reports/%d", survivors))
+	if nrec < need {
+		r.Inconc(fmt.Sprintf("scale: only %d report records were produced, %d needed", nrec, need))
+		return true
+	}
+	w.fullCheck("after the bulk reports")
+	// the bulk devices are banned; the survivors are untouched
+	for _, d := range bulk {
+		if w.stop {
+			break
+		}
+		w.opConflict([]string{"Debt", "PublicKey", "Capacity"}[rng.Intn(3)], "fresh", d)
+	}
+	for i := 0; i < 2 && !w.stop; i++ {
+		w.opRestart()
+	}
+	w.fullCheck("after two restarts on the long report log")
+	if !w.stop {
+		w.opReport(stAuthorized)
+	}
+	return !w.poisoned
+}
+
 // ---------------------------------------------------------------- child
 
 func child(b run.Batch, r *ev.Result) {
@@ -2464,6 +2678,17 @@ func child(b run.Batch, r *ev.Result) {
 			ok = runConcurrent(b, r, rng, n)
 		} else if b.Kind == "torn" {
 			ok = runTorn(b, r, rng, n)
+		} else if b.Kind == "scale" {
+			switch {
+			case b.P("what") == "auths":
+				ok = runScaleAuths(b, r, rng, n)
+			default:
+				surv := 1
+				if b.Tier == "thorough" && slice%2 == 1 {
+					surv = 2
+				}
+				ok = runScaleReports(b, r, rng, n, surv)
+			}
 		} else {
 			ok = runSequence(b, r, rng, n)
 		}
